@@ -46,8 +46,18 @@ def depth3():
     return [('u', u, ('u', v, ('u', w, X))) for u in PRIMS for v in PRIMS for w in INNER3]
 
 
+def _shift(c):
+    return ('b', '-', X, ('c', c))
+
+
+# programs with a stationary point / inflection point AT a pool point (the derivative is exactly 0 there, so the
+# whole returned value is error and only an absolute error estimate can be honest)
+STATIONARY = [('p', _shift(0.75), 2), ('u', 'cosh', _shift(1.5)), ('u', 'cos', _shift(0.3)), ('p', _shift(0.75), 3),
+              ('u', 'sin', _shift(1.5)), ('b', '-', ('u', 'exp', _shift(4.0)), X), ('p', _shift(-2.0), 4)]
+
+
 def programs(tier):
-    progs = depth1()
+    progs = depth1() + STATIONARY
     if tier == 'thorough':
         progs = progs + depth2() + depth3()
     return progs
